@@ -37,6 +37,7 @@ type c06Case struct {
 	OpenConf   bool      `json:"open_confirm"` // the remote stays silent after its OPEN
 	Steps      []c06Step `json:"steps,omitempty"`
 	Pattern    string    `json:"pattern"`
+	NilHandler bool      `json:"nil_handler,omitempty"` // OnEstablished returns a nil UpdateMessageHandler
 }
 
 func (c c06Case) H() time.Duration {
@@ -54,6 +55,7 @@ func c06Prop(t *testing.T, r *hx.Run, sub string) func(c c06Case) hx.Verdict {
 		v := hx.Verdict{Class: fmt.Sprintf("H=%s/%s/openconfirm=%v/prev=%d", hClass(H), c.Pattern, c.OpenConf, len(c.Prev))}
 		p := basePeer(c.Out)
 		p.Hold = c.LocalHold
+		p.Plugin.NilHandler = c.NilHandler
 		var dev *hx.Dev
 		fail := func(key, f string, a ...any) {
 			if dev == nil {
@@ -253,6 +255,9 @@ func c06Prop(t *testing.T, r *hx.Run, sub string) func(c c06Case) hx.Verdict {
 							ok = true
 						}
 					}
+					if c.NilHandler {
+						ok = !conn.Snapshot().LocalClosed // nothing observes the delivery
+					}
 					if !ok {
 						fail("dead-with-zero-hold", "hold time 0: an UPDATE sent after %v of silence was not delivered", horizon)
 					}
@@ -343,7 +348,8 @@ func genHold(rt *rapid.T, label string) int {
 }
 
 func genC06(rt *rapid.T) c06Case {
-	c := c06Case{LocalHold: genHold(rt, "lhold"), RemoteHold: uint16(genHold(rt, "rhold")), Out: rapid.Bool().Draw(rt, "out")}
+	c := c06Case{LocalHold: genHold(rt, "lhold"), RemoteHold: uint16(genHold(rt, "rhold")), Out: rapid.Bool().Draw(rt, "out"),
+		NilHandler: rapid.IntRange(0, 3).Draw(rt, "nilhandler") == 0}
 	if rapid.IntRange(0, 2).Draw(rt, "withprev") == 0 {
 		for i, k := 0, rapid.IntRange(1, 2).Draw(rt, "nprev"); i < k; i++ {
 			c.Prev = append(c.Prev, c06Prev{RemoteHold: uint16(genHold(rt, "prevhold")), End: pick(rt, "prevend", "fin", "cease")})
